@@ -45,6 +45,7 @@ type QCfg struct {
 	FEnq int `json:"fenq,omitempty"`
 	FDeq int `json:"fdeq,omitempty"`
 	FAck int `json:"fack,omitempty"`
+	FAckStall int `json:"fackstall,omitempty"` // percent of acknowledgements that stall until the next Settle
 	// notification faults (distributed)
 	NDelay int `json:"ndelay,omitempty"` // max delay in time units
 	NDup   int `json:"ndup,omitempty"`   // percent duplicated
@@ -90,6 +91,7 @@ type SubT struct {
 	Delay   int    `json:"delay,omitempty"` // simulated run time in time units
 	Gated   bool   `json:"gated,omitempty"`
 	CloseInFn bool `json:"closeinfn,omitempty"` // the worker function calls Close() on its own job (must be refused: ErrJobProcessing)
+	Pre     bool   `json:"pre,omitempty"`     // stored in the distributed backend by another producer before the consumer binds
 }
 
 // Sub is one submission (an Add, or one item of an AddAll) with everything
@@ -173,6 +175,7 @@ type qh struct {
 	ad     *simAdapter // simulated adapter (persistent / distributed kinds)
 	closeInv, closeRet uint64
 	addsInvoked int
+	preloaded   int
 	boundAt uint64
 	hb      sync.Mutex // handing the queue handle to other client tasks (see Sub.publish)
 }
@@ -202,6 +205,9 @@ type World struct {
 	consumers  []*World // C13: further consumer workers on the same adapter
 	cidx       int
 	root       *World
+	hasWarm, warmDone bool // warm-up task present / finished (opWarmDone, opAwaitWarm)
+	stallEpoch int // bumped to release stalled acknowledgements (root world only)
+	stalledNow int // acknowledgements currently stalled (root world only)
 	sharedAd   *simAdapter
 	binding    *World
 	crashed    bool
@@ -376,6 +382,32 @@ func (wd *World) setup() {
 	}
 }
 
+// preload: jobs marked Pre are put into the distributed backend through a producer-only
+// handle ("another process") before this worker binds the queue as a consumer.
+func (wd *World) preload(q *qh) {
+	idx := len(wd.qs)
+	r := wd.root.rec
+	for _, s := range wd.subs {
+		if !s.Pre || s.Q != idx || s.Submitted || wd != wd.root {
+			continue
+		}
+		c := r.begin(opAdd, idx, s.N)
+		c.Arg = 1
+		s.AddInv = c.Inv
+		ok := q.addBare(s.N, s.Prio, s.ID)
+		c.OK = ok
+		if !s.AcceptKnown {
+			s.AcceptKnown, s.Accepted = true, ok
+		}
+		r.end(c)
+		s.AddRet = c.Ret
+		s.publish()
+		s.Submitted = true
+		q.addsInvoked++
+		q.preloaded++
+	}
+}
+
 func (wd *World) teardown() {
 	queues.VerifSetCaps(wd.oldCaps[0], wd.oldCaps[1])
 }
@@ -468,16 +500,18 @@ func (wd *World) bindPlain(b IWorkerBinder[int], kind int, qc QCfg) *qh {
 		q.purge, q.close, q.nump = lq.Purge, lq.Close, lq.NumPending
 	case qkDist:
 		q.ad = wd.adapterFor(qc, false)
-		lq := b.WithDistributedQueue(adQ{q.ad})
 		bare := NewDistributedQueue[int](adQ{q.ad})
 		q.addBare = func(v, prio int, id string) bool { return bare.Add(v, jobCfg(id)...) }
+		wd.preload(q)
+		lq := b.WithDistributedQueue(adQ{q.ad})
 		q.add = func(v, prio int, id string) (*hnd, bool) { return nil, lq.Add(v, jobCfg(id)...) }
 		q.purge, q.close, q.nump = lq.Purge, lq.Close, lq.NumPending
 	case qkDistPrio:
 		q.ad = wd.adapterFor(qc, true)
-		lq := b.WithDistributedPriorityQueue(adPQ{q.ad})
 		bare := NewDistributedPriorityQueue[int](adPQ{q.ad})
 		q.addBare = func(v, prio int, id string) bool { return bare.Add(v, prio, jobCfg(id)...) }
+		wd.preload(q)
+		lq := b.WithDistributedPriorityQueue(adPQ{q.ad})
 		q.add = func(v, prio int, id string) (*hnd, bool) { return nil, lq.Add(v, prio, jobCfg(id)...) }
 		q.purge, q.close, q.nump = lq.Purge, lq.Close, lq.NumPending
 	}
